@@ -1,4 +1,5 @@
 import LanceModel.C11.RefineLemmas
+import LanceModel.C11.IdLemmas
 /-
 C11 — write / append / overwrite / read returns exactly the rows written.
 
@@ -62,6 +63,20 @@ theorem split_limit_counterexample : ¬ split_limit_full := by
     simp [splitFiles, chunksOf, fileLoop, curRows, Params.lim32, Params.group]
   have := h .legacy ⟨5, 3, false⟩ [[1, 2, 3, 4, 5, 6]] _ (by decide) h1 [1, 2, 3, 4, 5, 6] (by simp)
   simp at this
+
+/-- `split_limit_partial`: the full claim under the hypothesis that excludes exactly the defective region — the
+    (effective) group size divides the file limit, or the files are not legacy -/
+theorem split_limit_partial {α : Type} (ver : Ver) (p : Params) (batches files : List (List α))
+    (h32 : p.maxRowsPerFile < 4294967296) (hok : ver ≠ .legacy ∨ p.group ∣ p.maxRowsPerFile)
+    (h : splitFiles ver p batches = some files) : ∀ f ∈ files, f.length ≤ p.maxRowsPerFile := by
+  by_cases hv : ver = .legacy
+  · subst hv
+    rcases hok with hne | hdvd
+    · exact absurd rfl hne
+    · exact splitFiles_legacy_le p batches files h32 hdvd h
+  · exact splitFiles_le ver p batches files hv h32 h
+
+example : (⟨6, 3, false⟩ : Params).group ∣ (⟨6, 3, false⟩ : Params).maxRowsPerFile := by decide
 
 /-! ## 2. tables: scan after a write -/
 
@@ -159,7 +174,32 @@ theorem create_scan (t' : Table) (op : WriteOp) (h : applyWrite none op = (some 
 theorem store_faithful (ver : Ver) (spec : Spec) (r : Row) (h : ver ≠ .legacy) : storeRow ver spec r = r := by
   simp [storeRow, h]
 
+theorem storeCells_of_no_null (spec : Spec) (i : Nat) (r : Row) (h : ∀ c ∈ r, c ≠ none) :
+    storeCells spec i r = r := by
+  induction r generalizing i with
+  | nil => rfl
+  | cons c cs ih =>
+    have hc : c ≠ none := h c (by simp)
+    cases c with
+    | none => exact absurd rfl hc
+    | some v => simp [storeCells, ih (i + 1) (fun c hc => h c (by simp [hc]))]
+
+/-- … and in every version, legacy included, when the row holds no NULL -/
+theorem store_faithful_of_no_null (ver : Ver) (spec : Spec) (r : Row) (h : ∀ c ∈ r, c ≠ none) :
+    storeRow ver spec r = r := by
+  unfold storeRow
+  split
+  · exact storeCells_of_no_null spec 0 r h
+  · rfl
+
 /-! ## 3. histories -/
+
+/-- through every history the fragment ids of the table are strictly increasing in manifest order (hence unique)
+    and bounded by `max_fragment_id` — an overwrite restarts at 0 but keeps the high-water mark for later appends -/
+theorem frag_ids_increasing (ops : List WriteOp) (t : Table) (h : run none ops = some t) :
+    (t.frags.map (·.id)).Pairwise (· < ·) ∧ ∀ i ∈ t.frags.map (·.id), ∃ hw, t.hw = some hw ∧ i ≤ hw :=
+  idsOk_run none ops (by simp) t h
+
 
 /-- for every history of create / append / overwrite, the fragment-level model (files, fragment ids, scan in fragment
     order) holds exactly the flat table obtained by replaying the history on row lists -/
